@@ -68,6 +68,37 @@ Theorem C01_pp_largest_coprime_divisor_exact : Pp_exact.   Proof. exact pp_exact
 Print Assumptions C01_pp_largest_coprime_divisor_exact.
 Example C01_pp_hyp_satisfiable : exists P Q, P <> 0 /\ pp P Q = 5 /\ (2 | P) /\ (2 | Q).
 Proof. exists 360, 6. repeat split; [discriminate | exists 180; reflexivity | exists 3; reflexivity]. Qed.
+(* the loops as they are in the source (model with a "does not return" outcome): pp returns exactly for P <> 0 (value: the theorem above) and does
+   NOT return for P = 0, |Q| >= 2, whatever the fuel - finding `pp ... does not return`; the body after frag/C01.fix-5.diff returns 0 there *)
+Theorem C01_pp_returns_iff_documented_finding : Pp_returns.   Proof. exact pp_returns. Qed.
+Print Assumptions C01_pp_returns_iff_documented_finding.
+Example C01_pp_returns_hyp_satisfiable : pp_o 360 6 = Ret 5 /\ pp_o 0 5 = NoReturn /\ pp_fixed_o 0 5 = Ret 0.
+Proof. repeat split. Qed.
+(* logp returns the integer logarithm for 2 <= p, 1 <= a, 0 for a < p, and does NOT return for p in {0,1} (p <= a), p = -1 (1 <= a), whatever the
+   fuel - finding `logp ... does not return`; the body after frag/C01.fix-6.diff throws for every p < 2 *)
+Theorem C01_logp_returns_iff_documented_finding : Logp_returns.   Proof. exact logp_returns. Qed.
+Print Assumptions C01_logp_returns_iff_documented_finding.
+Example C01_logp_returns_hyp_satisfiable : logp_o 1000 10 = Ret 3 /\ logp_o 5 1 = NoReturn /\ logp_fixed_o 5 1 = Throws /\ logp_o 3 7 = Ret 0.
+Proof. repeat split. Qed.
+(* root(q,a,n) of a NEGATIVE a with odd n: truncation towards 0 ((q-1)^n < a <= q^n, exactness flag); ZRing::abs(x,a) = |a| *)
+Theorem C01_root_of_negative_and_abs_wrapper_exact : Audit_exact.   Proof. exact audit_exact. Qed.
+Print Assumptions C01_root_of_negative_and_abs_wrapper_exact.
+Example C01_root_negative_hyp_satisfiable : -28 < 0 /\ in_u32 3 /\ Z.odd 3 = true /\ root (-28) 3 = (-3, false) /\ root (-27) 3 = (-3, true).
+Proof. repeat split; discriminate. Qed.
+(* satisfiability of the hypotheses of the conditional clauses of the older theorems (audit 1) *)
+Example C01_powmod_negative_exponent_hyp_satisfiable :
+  in_i64 (-1) /\ -1 < 0 /\ Z.gcd 3 7 = 1 /\ 7 <> 0 /\ powmod3_i64 3 (-1) 7 = 5 /\ (5 * 3 ^ 1) mod 7 = 1.
+Proof. repeat split; discriminate. Qed.
+Example C01_inverse_hyp_satisfiable : Z.gcd 3 (-7) = 1 /\ -7 <> 0 /\ inv3 0 3 (-7) = 5.
+Proof. repeat split; discriminate. Qed.
+Example C01_roots_hyp_satisfiable : 0 <= 26 /\ in_u32 3 /\ 1 <= 3 /\ root 26 3 = (2, false) /\ sqrtrem3 26 = (5, 1).
+Proof. repeat split; discriminate. Qed.
+Example C01_dxgcd_hyp_satisfiable : dom_dxgcd 12 (-18) = (6, -1, -1, 2, -3) /\ 6 <> 0.
+Proof. split; [reflexivity | discriminate]. Qed.
+Example C01_logp_hyp_satisfiable : 2 <= 10 /\ 1 <= 1000 /\ logp 1000 10 = 3.
+Proof. repeat split; discriminate. Qed.
+Example C01_fused_alias_hyp_satisfiable : axpy_I true 7 2 3 7 = 13 /\ axpy_I false 99 2 3 7 = 13.
+Proof. split; reflexivity. Qed.
 (* fact = l!, swap, size_in_base for bases 2^k, isperfectpower(n) <> 0 <-> n = a^b with b > 1 (were oracle-only before phase 3) *)
 Theorem C01_fact_swap_sizeinbase_perfectpower_exact : Misc_exact.   Proof. exact misc_exact. Qed.
 Print Assumptions C01_fact_swap_sizeinbase_perfectpower_exact.
